@@ -76,9 +76,12 @@ def get_chain_name(chain):
 
 @contextlib.contextmanager
 def temp_var(vm):
-    params = vm.get_all_dic()
-    yield vm
-    vm.set_all(params)
+    # stored values (not the ones a mask_params block lets through)
+    params = {k: vm.get(k, val_in_fit=False) for k in vm.variables}
+    try:
+        yield vm
+    finally:
+        vm.set_all(params)
 
 
 def flatten_all(x):
